@@ -5,6 +5,7 @@ package main
 import (
 	"context"
 	"fmt"
+	"github.com/ipfs/go-cid"
 	"os"
 	"path/filepath"
 	"strings"
@@ -39,7 +40,7 @@ func TestVerif_C09_Handlers(t *testing.T) {
 	defer R.Finish()
 	base := vkBase("c09h")
 	defer os.RemoveAll(base)
-	R.Rule = "family 2: scenario = one real request (JSON-RPC getBlock / getTransaction / getBlockTime / getSignaturesForAddress on epoch E1, getSlot, getFirstAvailableBlock; gRPC GetBlock / GetTransaction / StreamBlocks / index-accelerated StreamTransactions with two per-account workers on E1) ; StreamTransactions with two workers and getBlock addressed to E2 itself, for which only completion is demanded) x one reload operation on epoch E2 (AddEpoch, ReplaceOrAddEpoch, RemoveEpoch, RemoveEpochByConfigFilepath, Add then Remove) x E2 loaded at start or not; all interleavings within preemption bound 2 (thorough 3) with happens-before pruning; response compared with the idle-server response(s)"
+	R.Rule = "family 2: scenario = one real request (JSON-RPC getBlock / getTransaction / getBlockTime / getSignaturesForAddress on epoch E1, getSlot, getFirstAvailableBlock; gRPC GetBlock / GetTransaction / StreamBlocks / index-accelerated StreamTransactions with two per-account workers on E1) ; StreamTransactions with two workers and getBlock addressed to E2 itself, for which only completion is demanded) x one reload operation on epoch E2 (AddEpoch, ReplaceOrAddEpoch, RemoveEpoch, RemoveEpochByConfigFilepath, Add then Remove) x E2 loaded at start or not; all interleavings within preemption bound 2 (thorough 3) with happens-before pruning; response compared with the idle-server response(s); probe family: GetEpoch(2) + FindCidFromSlot through the returned object while epoch 2 is replaced by another version of itself with a warm shared cache, all interleavings: the CID is the one of the object's own CAR"
 	e1, err := vkBuildEpoch(filepath.Join(base, "e1"), cargen.SimpleShape(1, 5, 3, 2), true)
 	if err != nil {
 		R.Internal("build e1: %v", err)
@@ -286,6 +287,139 @@ func TestVerif_C09_Handlers(t *testing.T) {
 			}
 		}
 		return res
+	}
+	// ---- probe during a replacement: epoch 2 is replaced by another version of itself (same slots, other blocks, hence
+	// other CIDs) while a reader does what every handler does first - GetEpoch(2), then the slot's CID through the
+	// epoch object it was given. The shared cache has been warmed through the old version. Whatever object the
+	// reader gets stays loaded (or is closed under it, then an error is fine); the CID it is told must be the one of
+	// THAT object's CAR - never the other version's, which is what a look-up cached through the old object would say.
+	if vkit.Mine(int64(len(scs)) + 1) {
+		shv2 := cargen.SimpleShape(2, 3, 2, 2) // the same slots as e2, one more transaction per block
+		e2v2, err := vkBuildEpoch(filepath.Join(base, "e2v2"), shv2, true)
+		if err != nil {
+			R.Internal("build e2v2: %v", err)
+			return
+		}
+		e2v2.writeConfig(vkConfigOpts{})
+		probeCache := vkNewCache()
+		mOld, err1 := vkLoadEpoch(e2.ConfigPath, probeCache)
+		mNew, err2 := vkLoadEpoch(e2v2.ConfigPath, probeCache)
+		p1, err3 := vkLoadEpoch(e1.ConfigPath, probeCache)
+		if err1 != nil || err2 != nil || err3 != nil {
+			R.Internal("load: %v %v %v", err1, err2, err3)
+			return
+		}
+		slot := e2.Truth.Blocks[1].Slot
+		cidOld, cidNew := e2.Truth.Blocks[1].Cid, e2v2.Truth.Blocks[1].Cid
+		if cidOld.Equals(cidNew) || e2v2.Truth.Blocks[1].Slot != slot {
+			R.Internal("generator: the two versions of epoch 2 do not differ as intended")
+			return
+		}
+		for _, writer := range []string{"ReplaceOrAddEpoch", "RemoveEpochByConfigFilepath+AddEpoch"} {
+			writer := writer
+			probe := func(c *explore.Ctx) explore.Result {
+				if r, ok := interface{}(probeCache).(interface{ Reset() error }); ok {
+					r.Reset()
+				}
+				oldCopy, newCopy := *mOld, *mNew
+				oldCopy.onClose, newCopy.onClose = nil, nil
+				old, fresh := &oldCopy, &newCopy
+				old.FindCidFromSlot(context.Background(), slot) // warm the shared cache through the old version
+				var got, after string
+				var gotFrom, afterFrom *Epoch
+				var gerr, afterErr error
+				s := vsched.Run(c, vsched.Options{Horizon: 4000, Drain: true}, func() {
+					m := vkNewMulti(2, p1, old)
+					done := make(chan struct{}, 2)
+					vsched.Go(func() {
+						ep, err := m.GetEpoch(2)
+						if err == nil {
+							gotFrom = ep
+							vsched.Yield("handler-work") // a handler does other things between the two steps
+							var cc cid.Cid
+							cc, gerr = ep.FindCidFromSlot(context.Background(), slot)
+							got = cc.String()
+						} else {
+							gerr = err
+						}
+						vsched.Send(done, struct{}{})
+					})
+					vsched.Go(func() {
+						if writer == "ReplaceOrAddEpoch" {
+							m.ReplaceOrAddEpoch(2, fresh)
+						} else {
+							m.RemoveEpochByConfigFilepath(e2.ConfigPath)
+							m.AddEpoch(2, fresh)
+						}
+						vsched.Send(done, struct{}{})
+					})
+					vsched.Recv(done)
+					vsched.Recv(done)
+					// both have returned: the new version is loaded and stays loaded; what does a request say now?
+					if ep, err := m.GetEpoch(2); err == nil {
+						cc, err := ep.FindCidFromSlot(context.Background(), slot)
+						afterFrom, after, afterErr = ep, cc.String(), err
+					} else {
+						afterErr = err
+					}
+				})
+				if c.Pruned {
+					return explore.Result{}
+				}
+				res := explore.Result{NonTrivial: s.Preemptions > 0}
+				switch {
+				case s.Panic != "":
+					if strings.Contains(s.Panic, "replay divergence") {
+						panic(s.Panic)
+					}
+					res.Outcome = "panic"
+					res.Violation = &explore.Violation{Key: "C09|probe|panic", What: firstLine(s.Panic)}
+				case s.Panic == "" && !s.Deadlock && !s.HorizonHit && (afterFrom != fresh || afterErr != nil || after != cidNew.String()):
+					res.Outcome = "stale-after-reload"
+					res.Violation = &explore.Violation{Key: "C09|probe|stale-after-the-reload-returned|" + writer, What: fmt.Sprintf("after %s and the concurrent reader had both returned, GetEpoch(2) + FindCidFromSlot(%d) answered %s err=%v; the loaded version's block is %s (the reader that still held the old object has put its look-up into the shared cache after the reload had emptied it)", writer, slot, after, afterErr, cidNew)}
+				case s.Deadlock:
+					res.Outcome = "deadlock"
+					res.Violation = &explore.Violation{Key: "C09|probe|deadlock", What: s.DeadlockInfo}
+				case s.HorizonHit:
+					res.Outcome = "horizon"
+				case gerr != nil:
+					res.Outcome = "error"
+				case gotFrom == old && got == cidOld.String():
+					res.Outcome = "old-version:its-cid"
+				case gotFrom == fresh && got == cidNew.String():
+					res.Outcome = "new-version:its-cid"
+				default:
+					which := "the new"
+					if gotFrom == old {
+						which = "the old"
+					}
+					res.Outcome = "other-versions-cid"
+					res.Violation = &explore.Violation{Key: "C09|probe|cid-of-the-other-version|" + writer, What: fmt.Sprintf("GetEpoch(2) returned %s version of epoch 2 while %s was replacing it; FindCidFromSlot(%d) through that object answered %s, which is the block of the OTHER version's CAR (old version %s, new version %s): a look-up cached through the old object was served for the new one", which, writer, slot, got, cidOld, cidNew)}
+				}
+				return res
+			}
+			st := explore.Search(explore.Config{Bound: -1, Deadline: R.Deadline(), Prune: true}, probe)
+			R.Evaluations += st.Executions
+			R.NonTrivial += st.NonTrivial
+			R.Transitions += st.Points
+			R.TracesValidated += st.Executions
+			R.States += st.States
+			R.Add("probe_scenarios_done", 1)
+			for o := range st.Outcomes {
+				R.Outcome("probe:" + writer + ":" + o)
+			}
+			for _, f := range st.Violations {
+				if ok, why := explore.Confirm(f, 3, probe); !ok {
+					R.InconclusiveF("violation %s did not reproduce: %s", f.Violation.Key, why)
+					continue
+				}
+				R.Violation(f.Violation.Key, f.Violation.What, map[string]interface{}{"family": "probe-during-replacement", "writer": writer, "choices": f.Choices})
+				break
+			}
+		}
+		for _, ep := range []*Epoch{mOld, mNew, p1} {
+			ep.Close()
+		}
 	}
 	// ---- sequential histories: an epoch is reloaded from a CAR with another layout (same blocks and CIDs, a longer
 	// header, hence other offsets) while the server keeps running; once the reload has completed, requests addressed
